@@ -281,7 +281,7 @@ Proof.
       cbn [andb] in O; try (rewrite O in H; discriminate).
     destruct (un_spec2 _ _ _ _ _ (nn u) (nn v) G Hu Hv) as (s1 & rank' & rep' & E & G' & F & B).
     cbn [step] in H. rewrite E in H. inversion H; subst s' rv. clear H.
-    destruct r as [b| | |]; cbn [ret_eqb] in HR; try discriminate.
+    destruct r as [b| | | |]; cbn [ret_eqb] in HR; try discriminate.
     apply eqb_prop in HR. subst b. cbn [spec_op].
     rewrite (r_lab _ _ _ R) by auto. rewrite eqb_reflx.
     eexists. split; [reflexivity|]. exists n, (es ++ [(nn u, nn v)]), rank', rep'. split; auto.
@@ -291,7 +291,7 @@ Proof.
     destruct (Nat.ltb_spec (nn v) n) as [Hv|Hv]; try (rewrite O in H; discriminate).
     destruct (par_spec _ _ _ _ _ G (nn v) Hv) as (s1 & E & G' & _).
     cbn [step] in H. rewrite E in H. inversion H; subst s' rv. clear H.
-    destruct r as [|k| |]; cbn [ret_eqb] in HR; try discriminate.
+    destruct r as [|k| | |]; cbn [ret_eqb] in HR; try discriminate.
     apply N.eqb_eq in HR. subst k. cbn [spec_op]. unfold nn at 2. rewrite Nat2N.id.
     destruct (see_rep_ok _ _ _ _ _ G q (nn v) R Hv) as (q1 & E1 & R1).
     exists q1. split; auto. exists n, es, rank, rep. auto.
@@ -301,7 +301,7 @@ Proof.
       cbn [andb] in O; try (rewrite O in H; discriminate).
     destruct (check_spec _ _ _ _ _ G (nn u) (nn v) Hu Hv) as (s1 & E & G' & _).
     cbn [step] in H. rewrite E in H. inversion H; subst s' rv. clear H.
-    destruct r as [b| | |]; cbn [ret_eqb] in HR; try discriminate.
+    destruct r as [b| | | |]; cbn [ret_eqb] in HR; try discriminate.
     apply eqb_prop in HR. subst b. cbn [spec_op].
     rewrite (r_lab _ _ _ R) by auto. rewrite eqb_reflx.
     eexists. split; [reflexivity|]. exists n, es, rank, rep. auto.
@@ -310,7 +310,7 @@ Proof.
     destruct (Nat.ltb_spec (nn v) n) as [Hv|Hv]; try (rewrite O in H; discriminate).
     destruct (size_spec _ _ _ _ _ G (nn v) Hv) as (s1 & E & G' & _).
     cbn [step] in H. rewrite E in H. inversion H; subst s' rv. clear H.
-    destruct r as [|k| |]; cbn [ret_eqb] in HR; try discriminate.
+    destruct r as [|k| | |]; cbn [ret_eqb] in HR; try discriminate.
     apply N.eqb_eq in HR. subst k. cbn [spec_op].
     rewrite (class_size_count n rep q (nn v) R Hv), N.eqb_refl.
     eexists. split; [reflexivity|]. exists n, es, rank, rep. auto.
@@ -390,27 +390,36 @@ Proof.
   intros R H. destruct sn as [x|]; cbn [opt_snap]; [|eauto]. apply rel_snap; auto.
 Qed.
 
+Lemma rel_panic_state s q op : Rel s q -> Rel (panic_state s op) q.
+Proof.
+  intros (n & es & rank & rep & G & R).
+  assert (P : forall u, Rel (match par s u with Ok (s1, _) => s1 | _ => s end) q).
+  { intros u. destruct (Nat.ltb_spec u n) as [Hu|Hu].
+    - destruct (par_spec _ _ _ _ _ G u Hu) as (s1 & E & G1 & _). rewrite E. exists n, es, rank, rep. auto.
+    - rewrite (par_panic _ _ _ _ _ G u Hu). exists n, es, rank, rep. auto. }
+  destruct op; cbn [panic_state]; auto; exists n, es, rank, rep; auto.
+Qed.
+
+Lemma snap_step_some last c s sn last' :
+  snap_step last c s sn = Some last' -> forall x, sn = Some x -> snap_eqb s x = true.
+Proof.
+  unfold snap_step. intros H x Hx. subst sn.
+  destruct (negb _ && snap_eqb s x) eqn:C; [|discriminate]. apply andb_true_iff in C. tauto.
+Qed.
+
 Lemma sim : forall ops os cs last qs csf,
   Forall2 Rel cs qs -> model_run cs last ops os = Some csf ->
   exists qsf, spec_run qs ops os = Some qsf /\ Forall2 Rel csf qsf.
 Proof.
   induction ops as [|o ops IH]; intros [|[r sn] os] cs last qs csf F H; cbn [model_run] in H; try discriminate.
   - inversion H; subst. exists qs. split; auto.
-  - cbn [spec_run]. pose proof (must_panic_spec cs qs o F) as MP.
+  - cbn [spec_run]. cbv zeta. pose proof (must_panic_spec cs qs o F) as MP.
     destruct (mstep cs (to_mop o)) as [[[cs' c] rv]| |] eqn:M; [| |discriminate].
     + rewrite MP.
       destruct (ret_eqb rv r) eqn:HR; [|discriminate].
       destruct (nth_error cs' c) as [s'|] eqn:N; [|discriminate].
-      (* what the snapshot part of model_run tells us *)
-      assert (SN : (forall x, sn = Some x -> snap_eqb s' x = true) /\
-                   exists last', model_run cs' last' ops os = Some csf).
-      { destruct sn as [x|].
-        - destruct (negb _ && snap_eqb s' x) eqn:C; [|discriminate].
-          apply andb_true_iff in C. destruct C as [_ C]. split; [|eauto].
-          intros y Hy. now inversion Hy; subst.
-        - destruct (match nth_error last c with Some (Some s0) => dsu_eqb s0 s' | _ => false end);
-            [|discriminate]. split; [discriminate|eauto]. }
-      destruct SN as [SN1 (last' & SN2)]. clear H.
+      destruct (snap_step last c s' sn) as [last'|] eqn:SS; [|discriminate].
+      pose proof (snap_step_some _ _ _ _ _ SS) as SN1. rename H into SN2.
       destruct (is_clone o) eqn:IC.
       * (* clone *)
         destruct o as [? ? ?|? ?|? ? ?|? ?|? ?|ci]; try discriminate. cbn [to_mop mstep cidx] in *.
@@ -438,8 +447,25 @@ Proof.
         destruct (rel_opt_snap s' q1 sn R1 SN1) as (q2 & E2 & R2). rewrite E2.
         apply (IH os (put cs ci s') last' (put qs ci q2) csf); auto.
         apply Forall2_put; auto.
-    + rewrite MP. destruct r; try discriminate. destruct sn; try discriminate.
-      destruct os; try discriminate. inversion H; subst. eauto.
+    + (* the call panics: the history goes on with the value it left behind *)
+      rewrite MP. destruct r; try discriminate.
+      destruct (to_mop o) as [ci op|ci] eqn:TO.
+      * assert (CI : cidx o = ci) by (destruct o; cbn [to_mop] in TO; inversion TO; reflexivity).
+        rewrite CI.
+        destruct (nth_error cs ci) as [s|] eqn:E.
+        -- destruct (Forall2_nth _ _ _ _ _ F E) as (q & Eq & R). rewrite Eq.
+           destruct (snap_step last ci (panic_state s op) sn) as [last'|] eqn:SS; [|discriminate].
+           pose proof (snap_step_some _ _ _ _ _ SS) as SN1.
+           destruct (rel_opt_snap _ q sn (rel_panic_state s q op R) SN1) as (q2 & E2 & R2). rewrite E2.
+           apply (IH os (put cs ci (panic_state s op)) last' (put qs ci q2) csf); auto.
+           apply Forall2_put; auto.
+        -- rewrite (Forall2_nth_none _ _ _ _ F E).
+           destruct sn; try discriminate. destruct os; try discriminate. inversion H; subst. eauto.
+      * assert (CI : cidx o = ci) by (destruct o; cbn [to_mop] in TO; inversion TO; reflexivity).
+        rewrite CI. cbn [mstep] in M.
+        destruct (nth_error cs ci) as [s|] eqn:E; [discriminate|].
+        rewrite (Forall2_nth_none _ _ _ _ F E).
+        destruct sn; try discriminate. destruct os; try discriminate. inversion H; subst. eauto.
 Qed.
 
 Lemma finals_ok : forall csf qsf fin, Forall2 Rel csf qsf -> all2 snap_eqb csf fin = true ->
